@@ -136,6 +136,7 @@ Graph::Graph(const Graph &G)
 
 Graph::~Graph(void) {
     delete m_cfdl;
+    delete m_cgr.rc;
     for (Rectangle *r : m_cgr.rs) delete r;
 }
 
